@@ -23,11 +23,14 @@ CONSTANTS JunkMode,   \* "none" | "quadrants" | "all": which corrupted squares a
           PaxMode     \* "all": every proof-axis assignment; "some": uniform and alternating ones
 
 VARIABLE kase
-NoCase == [cls |-> "init"]
+\* One initial state per (square variant, axis, index): every case is one step from its seed
+\* (this only spreads the enumeration over TLC's workers).
+Seed(junk, ax, i) == [cls |-> "init", junk |-> junk, axis |-> ax, index |-> i]
 
 QuadrantReps == {<<0, K - 1>>, <<K - 1, K>>, <<W - 1, 0>>, <<K, W - 1>>}
 JunkSets == {{}} \cup
             (CASE JunkMode = "none"      -> {}
+               [] JunkMode = "two"       -> {{<<0, K - 1>>}, {<<K, W - 1>>}}
                [] JunkMode = "quadrants" -> {{x} : x \in QuadrantReps}
                [] OTHER                  -> {{<<r, c>>} : r \in Idx, c \in Idx})
 
@@ -41,22 +44,24 @@ Base(ax, i, P, pa) ==
     [axis |-> ax, index |-> i,
      slots |-> [s \in Slots |-> IF s \in P THEN <<HonestEntry(ax, i, s - 1, pa[s])>> ELSE <<>>]]
 
-Bases == {<<ax, i, P>> : ax \in Axes, i \in Idx, P \in {Q \in SUBSET Slots : Cardinality(Q) >= K - 1 /\ Q # {}}}
+BaseSets == {Q \in SUBSET Slots : Cardinality(Q) >= K - 1 /\ Q # {}}
+\* the bases of the current seed
+Bases == {<<kase.axis, kase.index, P>> : P \in BaseSets}
 
 Mk(cls, mut, junk, b, pa, f) ==
     [cls |-> cls, mut |-> mut, junk |-> junk, baxis |-> b[1], bindex |-> b[2], bP |-> b[3], bpa |-> pa, f |-> f]
 
-Init == kase = NoCase
+Init == kase \in {Seed(junk, ax, i) : junk \in JunkSets, ax \in Axes, i \in Idx}
 
 Plain ==
-    /\ kase = NoCase
-    /\ \E junk \in JunkSets, b \in Bases : \E pa \in PaxAssignments(b[3]) :
+    /\ kase.cls = "init"
+    /\ \E junk \in {kase.junk}, b \in Bases : \E pa \in PaxAssignments(b[3]) :
          kase' = Mk("plain", <<"none">>, junk, b, pa, Base(b[1], b[2], b[3], pa))
 
 \* edits that move proven shares between slots
 Permute ==
-    /\ kase = NoCase
-    /\ \E junk \in JunkSets, b \in Bases : \E pa \in PaxAssignments(b[3]) :
+    /\ kase.cls = "init"
+    /\ \E junk \in {kase.junk}, b \in Bases : \E pa \in PaxAssignments(b[3]) :
          LET f == Base(b[1], b[2], b[3], pa) P == b[3] IN
          \/ \E x \in P, y \in P :
                /\ x < y
@@ -72,8 +77,8 @@ Permute ==
 
 \* a slot filled with a genuinely proven share of another line
 Substitute ==
-    /\ kase = NoCase
-    /\ \E junk \in JunkSets, b \in Bases : \E pa \in PaxAssignments(b[3]) :
+    /\ kase.cls = "init"
+    /\ \E junk \in {kase.junk}, b \in Bases : \E pa \in PaxAssignments(b[3]) :
          LET f == Base(b[1], b[2], b[3], pa) IN
          \E s \in b[3], j \in Idx \ {b[2]}, pax \in Axes :
             kase' = Mk("substitute", <<"subst", s - 1, j, pax>>, junk, b, pa,
@@ -81,8 +86,8 @@ Substitute ==
 
 \* altered share / leaf namespace / proof position of one slot
 AlterSlot ==
-    /\ kase = NoCase
-    /\ \E junk \in JunkSets, b \in Bases : \E pa \in PaxAssignments(b[3]) :
+    /\ kase.cls = "init"
+    /\ \E junk \in {kase.junk}, b \in Bases : \E pa \in PaxAssignments(b[3]) :
          LET f == Base(b[1], b[2], b[3], pa) IN
          \E s \in b[3] :
             LET e == f.slots[s][1] IN
@@ -96,8 +101,8 @@ AlterSlot ==
 
 \* relabelled header fields
 Relabel ==
-    /\ kase = NoCase
-    /\ \E junk \in JunkSets, b \in Bases : \E pa \in PaxAssignments(b[3]) :
+    /\ kase.cls = "init"
+    /\ \E junk \in {kase.junk}, b \in Bases : \E pa \in PaxAssignments(b[3]) :
          LET f == Base(b[1], b[2], b[3], pa) IN
          \/ \E j \in (0..W) \ {b[2]} : kase' = Mk("relabel", <<"index", j>>, junk, b, pa, [f EXCEPT !.index = j])
          \/ kase' = Mk("relabel", <<"flipaxis">>, junk, b, pa, [f EXCEPT !.axis = Other(b[1])])
